@@ -58,6 +58,7 @@ fn opts_json(input: &str, o: &HtmlOpts) -> Value {
         "quirks": format!("{:?}", o.quirks),
         "context": o.context.as_ref().map(|c| json!({"ns": c.0, "local": c.1, "attrs": c.2.iter().map(|a| json!([a.0, a.1])).collect::<Vec<_>>()})),
         "context_allows_scripting": o.context_allows_scripting,
+        "allow_shadow": o.allow_shadow,
         "discard_bom": o.tok.discard_bom,
     })
 }
@@ -84,6 +85,7 @@ fn opts_from_json(v: &Value) -> (String, HtmlOpts) {
         ));
     }
     o.context_allows_scripting = v["context_allows_scripting"].as_bool().unwrap_or(o.scripting);
+    o.allow_shadow = v["allow_shadow"].as_bool().unwrap_or(false);
     o.tok.discard_bom = v["discard_bom"].as_bool().unwrap_or(true);
     (v["input"].as_str().unwrap_or("").to_string(), o)
 }
